@@ -117,7 +117,10 @@ entry("C18", modules=["contracts.c18_evo"],
                    "coo/bsr Hamiltonians are outside the table (bounded drivers only)",
                    "times are reals; the Hilbert-space dimension d >= 1 is symbolic in E1 (d = 2 takes the row-unpacking "
                    "path); the fdx provider runs the real constructor at d = 2 and d = 3",
-                   "the dynamics itself (ODE integration accuracy, expm accuracy) is not proved: bounded drivers"],
+                   "the dynamics itself (ODE integration accuracy, expm accuracy) is not proved: bounded drivers",
+                   "NOTE (informational, not obliged: C18 does not mention int_stop): Evolution(p0, (evals, evecs), "
+                   "method='integrate' [the default], int_stop=fn) passes the int_stop guard, installs the solved method "
+                   "and never consults the stopping condition; the evolution itself is right"],
       BOUNDED_FOR={"Evolution.__init__": ["Evolution", "evolution"], "Evolution._setup_solved_ham": ["solve"]},
       EXPLANATION="E1: support table of Evolution.__init__ by kind enumeration (96 combinations x own-raise paths): the "
                   "constructor raises or installs an update method whose own precondition covers (state kind, Hamiltonian "
@@ -525,6 +528,13 @@ entry("C11", modules=["contracts.c11_tebd"],
                    "TEBD: L >= 2 symbolic (periodic: L >= 3; the two-site ring, where (0,1) and (1,0) are the same stored "
                    "term, is outside the domain); cyclic and imag enumerated; direction in {'right','left'}; explicit "
                    "dt > 0 / tol > 0; the gauge clauses (mpsghost of C08) are stated for open chains only",
+                   "NOTE (informational, not obliged: C11 speaks about untruncated evolution, where an off-centre split "
+                   "is exact): with VERIF_C11_GAUGE=1 the gauge analysis is emitted for all cases and shows that "
+                   "consecutive same-direction sweeps occur with queue=False (final step of every update_to after the "
+                   "queue drain, order-4 step without queue, successive update_to / at_times targets): their gates are "
+                   "split with the orthogonality centre at the wrong end (natively: 159 of 568 gates at L=10, order 2, "
+                   "20 targets; infidelity 8e-6 vs 2e-7 at max_bond=16) -- a quality-of-truncation issue. By default the "
+                   "mpsghost machinery is on only for imag=True, where it decides the renormalisation obligation",
                    "callers of sweep (step, update_to, at_times) track the gauge through the abstract flag g_centre (0: "
                    "centre at site 0, 1: at L-1, 3: after an imaginary-time left sweep) that the body proof of sweep "
                    "relates to the quantified isL / isR facts; in update_to / at_times the evolved state is summarised by "
@@ -547,11 +557,12 @@ entry("C11", modules=["contracts.c11_tebd"],
                   "sweep on every odd bond (+(L-1,0) if cyclic and L even), nothing else), gate chain in order, queue "
                   "logic (logical state advances by Sw(direction, fraction) modulo MERGE, empty after queue=False), gauge "
                   "(centre on the sites of every gate_split_, centre at L-1 / 0 afterwards, imaginary-time "
-                  "renormalisation divides the centre); step / _compute_sweep_dt_tol / choose_time_step / "
+                  "renormalisation divides the centre -- emitted for imag=True only, see ASSUMPTIONS); step / _compute_sweep_dt_tol / choose_time_step / "
                   "_get_gate_from_ham; update_to over the reals (t' == T exactly, t == Tm(n) in the loop, last partial "
                   "step in (0, _dt], error bound accumulates |H| dt^(order+1), queue empty afterwards); at_times (the j-th "
-                  "yield is a copy of the state at sorted(ts)[j], one yield per requested time). The gauge obligations "
-                  "FAIL on the unchanged tree (consecutive same-direction sweeps; left-sweep renormalisation site).")
+                  "yield is a copy of the state at sorted(ts)[j], one yield per requested time). Failing on the "
+                  "unchanged tree: TEBD.sweep[direction=left,...,imag=True]::renorm@L:renormalised site is the "
+                  "orthogonality centre (the left sweep divides site 1, the centre is site 0: unnormalised state).")
 
 
 # -----------------------------------------------------------------------------------------------------------
